@@ -3,6 +3,7 @@
 package commitlog
 
 import (
+	"strings"
 	"testing"
 
 	"github.com/liftbridge-io/liftbridge/server/vfutil"
@@ -98,13 +99,34 @@ func genC08(t *rapid.T) clCase {
 		if rapid.IntRange(0, 5).Draw(t, "reopen") == 0 {
 			c.Ops = append(c.Ops, clOp{Op: "reopen"})
 		}
+		// committed readers that have delivered part of the log are parked across
+		// the clean and continue afterwards
+		parked := rapid.Bool().Draw(t, "parked")
+		if parked {
+			nr := rapid.IntRange(1, 3).Draw(t, "nreaders")
+			for i := 0; i < nr; i++ {
+				c.Ops = append(c.Ops, clOp{Op: "newreader", Cls: rapid.IntRange(0, 5).Draw(t, "rcls"), Sel: rapid.IntRange(0, 1000).Draw(t, "rsel")},
+					clOp{Op: "read", Sel: i, N: rapid.IntRange(0, 6).Draw(t, "rn")})
+			}
+		}
 		c.Ops = append(c.Ops, genCleanOp(t, true, rapid.IntRange(0, 3).Draw(t, "withret") == 0))
+		if parked {
+			c.Ops = append(c.Ops, clOp{Op: "read", Sel: rapid.IntRange(0, 2).Draw(t, "r1"), N: rapid.IntRange(1, 4).Draw(t, "rn1")})
+		}
 		nrep := rapid.IntRange(0, 2).Draw(t, "repeat")
 		for i := 0; i < nrep; i++ {
 			if rapid.Bool().Draw(t, "hwbetween") {
 				c.Ops = append(c.Ops, clOp{Op: "sethw", Sel: rapid.IntRange(0, 1000).Draw(t, "sel")})
 			}
 			c.Ops = append(c.Ops, genCleanOp(t, true, false))
+			if parked {
+				c.Ops = append(c.Ops, clOp{Op: "read", Sel: rapid.IntRange(0, 2).Draw(t, "r2"), N: rapid.IntRange(1, 6).Draw(t, "rn2")})
+			}
+		}
+		if parked {
+			for i := 0; i < 3; i++ {
+				c.Ops = append(c.Ops, clOp{Op: "read", Sel: i, N: 40})
+			}
 		}
 	}
 	return c
@@ -123,8 +145,37 @@ func TestVerifC09(t *testing.T) {
 	vfutil.Run(t, vfutil.Spec[clCase]{ID: "C09", Gen: genC09, Run: runCLFlavor, Summary: clSummary})
 }
 
+// runParked is runCL plus committed readers parked across cleans (operations
+// newreader/read, shared with C03a); prefix names the flavour in signatures.
+func runParked(c clCase, o *vfutil.Obs, prefix string) (*clExec, *vfutil.Failure) {
+	var xx *clExec
+	var readers []*c03Reader
+	nt := false
+	hook := c03Hook(&readers, &nt, o)
+	f := runCL(c, o, func(x *clExec, op clOp) (*vfutil.Failure, bool) {
+		xx = x
+		if op.Op != "newreader" && op.Op != "read" {
+			return nil, false
+		}
+		f, handled := hook(x, op)
+		if f != nil && strings.HasPrefix(f.Signature, "C03/") {
+			f.Signature = prefix + "/parked-committed-reader/" + strings.TrimPrefix(f.Signature, "C03/")
+		}
+		return f, handled
+	})
+	return xx, f
+}
+
+func runC08(c clCase, o *vfutil.Obs) *vfutil.Failure {
+	xx, f := runParked(c, o, "C08")
+	if xx != nil && xx.nt {
+		o.NonTrivial()
+	}
+	return f
+}
+
 func TestVerifC08(t *testing.T) {
-	vfutil.Run(t, vfutil.Spec[clCase]{ID: "C08", Gen: genC08, Run: runCLFlavor, Summary: clSummary})
+	vfutil.Run(t, vfutil.Spec[clCase]{ID: "C08", Gen: genC08, Run: runC08, Summary: clSummary})
 }
 
 // C10 (package-level part): committed readers on retention-trimmed and
@@ -153,8 +204,20 @@ func genC10cl(t *rapid.T) clCase {
 		for i, n := 0, rapid.IntRange(0, 3).Draw(t, "nts"); i < n; i++ {
 			c.Ops = append(c.Ops, clOp{Op: "tslookup", Cls: rapid.IntRange(0, 2).Draw(t, "tscls"), Sel: rapid.IntRange(0, 1000).Draw(t, "tssel")})
 		}
+		// a subscription that has delivered part of the log while it is cleaned
+		parked := rapid.Bool().Draw(t, "parked")
+		if parked {
+			nr := rapid.IntRange(1, 2).Draw(t, "nreaders")
+			for i := 0; i < nr; i++ {
+				c.Ops = append(c.Ops, clOp{Op: "newreader", Cls: rapid.IntRange(0, 5).Draw(t, "rcls"), Sel: rapid.IntRange(0, 1000).Draw(t, "rsel")},
+					clOp{Op: "read", Sel: r*2 + i, N: rapid.IntRange(0, 5).Draw(t, "rn")})
+			}
+		}
 		if rapid.IntRange(0, 2).Draw(t, "clean") != 0 {
 			c.Ops = append(c.Ops, genCleanOp(t, rapid.Bool().Draw(t, "compact"), rapid.IntRange(0, 3).Draw(t, "ret") != 0))
+		}
+		if parked {
+			c.Ops = append(c.Ops, clOp{Op: "read", Sel: rapid.IntRange(0, 5).Draw(t, "r1"), N: rapid.IntRange(1, 8).Draw(t, "rn1")})
 		}
 		for i, n := 0, rapid.IntRange(0, 3).Draw(t, "nts2"); i < n; i++ {
 			c.Ops = append(c.Ops, clOp{Op: "tslookup", Cls: rapid.IntRange(0, 2).Draw(t, "tscls"), Sel: rapid.IntRange(0, 1000).Draw(t, "tssel")})
@@ -167,8 +230,7 @@ func genC10cl(t *rapid.T) clCase {
 }
 
 func runC10cl(c clCase, o *vfutil.Obs) *vfutil.Failure {
-	var xx *clExec
-	f := runCL(c, o, func(x *clExec, op clOp) (*vfutil.Failure, bool) { xx = x; return nil, false })
+	xx, f := runParked(c, o, "C10")
 	if xx != nil && (xx.sparse || xx.trimmed) && xx.m.HW < xx.m.newest() {
 		o.NonTrivial()
 	}
